@@ -126,7 +126,7 @@ func ruleRFRESH(c *Ctx, rule string) {
 		instrsOf(fn, func(in ssa.Instruction) {
 			if ci, ok := in.(ssa.CallInstruction); ok {
 				for _, cal := range c.P.Callees(ci) {
-					if cal == ff {
+					if c.A.IsRoleFunc(cal, "freshness") && c.A.roleOf[fn] != "freshness" {
 						sites = append(sites, fmt.Sprintf("%s@%s", c.P.ShortName(fn), c.P.InstrPos(in)))
 					}
 				}
